@@ -473,6 +473,9 @@ func (a *allowerContext) createEventAllowed(event PDU) error {
 	if err != nil {
 		return err
 	}
+	if sender == nil {
+		return errorf("userID not found for sender %q in room %q", event.SenderID(), event.RoomID().String())
+	}
 	verImpl, err := GetRoomVersion(event.Version())
 	if err != nil {
 		return nil
